@@ -99,6 +99,34 @@ pub fn check_rerun(ctx: &Ctx, n: u64, files: &[(String, String)], root: &str, ar
             }
         }
     }
+    // history: the same project reached through an edit. A working copy that still holds the outputs of an earlier
+    // state of the sources (every GraphQL file two lines longer at the top: same declarations, other positions) must
+    // end up with the very bytes a clean run produces.
+    if let Some((Some(0), _, _, f0)) = &first {
+        if args.iter().any(|a| a == "generate") && n % 3 == 0 {
+            let dir2 = cli::scratch_dir(&ctx.out, "c17h", n);
+            let earlier: Vec<(String, String)> = files.iter().map(|(p, t)| if p.ends_with(".graphql") || p.ends_with(".graphqls") { (p.clone(), format!("# an earlier revision\n\n{t}")) } else { (p.clone(), t.clone()) }).collect();
+            if cli::write_project(&dir2, &earlier).is_ok() {
+                let cwd2 = dir2.join(root);
+                let r1 = cli::run_cli(&ctx.cli, &cwd2, &a, Duration::from_secs(120));
+                if r1.status == Some(0) && cli::write_project(&dir2, files).is_ok() {
+                    let r2 = cli::run_cli(&ctx.cli, &cwd2, &a, Duration::from_secs(120));
+                    if r2.status == Some(0) && r2.panicked().is_none() {
+                        st.runs += 2;
+                        let snap = cli::snapshot(&dir2);
+                        for (p, h) in &snap {
+                            match f0.get(p) {
+                                Some(h0) if h0 == h => {}
+                                Some(_) => out.push((format!("C17|rerun|stale-output-after-source-edit|{}", file_class(p)), format!("{p}: a working copy that was generated before the sources were edited ends up with other bytes than a clean run of the same project"))),
+                                None => out.push((format!("C17|rerun|leftover-output-after-source-edit|{}", file_class(p)), format!("{p} exists only in the working copy that was generated before the edit"))),
+                            }
+                        }
+                    }
+                }
+            }
+            cli::cleanup(&dir2);
+        }
+    }
     cli::cleanup(&dir);
     out.sort();
     out.dedup_by(|a, b| a.0 == b.0);
@@ -316,13 +344,20 @@ fn verdict_of(r: &crate::pipeline::PipelineResult) -> (Vec<String>, Vec<String>,
 }
 
 pub fn check_perm_lib(schemas: &[String], op: &str) -> Vec<Violation> {
-    let replay = json!({"property":"C17","kind":"perm-lib","schemas":schemas,"op":op});
+    check_perm_lib_mode(schemas, op, false)
+}
+
+/// `verdict_only`: the schema itself carries a fault; which diagnostics an invalid schema gets may depend on the order,
+/// whether it is accepted may not
+pub fn check_perm_lib_mode(schemas: &[String], op: &str, verdict_only: bool) -> Vec<Violation> {
+    let replay = json!({"property":"C17","kind":"perm-lib","schemas":schemas,"op":op,"verdict_only":verdict_only});
     let files = vec![("ops/main.graphql".to_string(), op.to_string())];
     let mut out = vec![];
     let base = verdict_of(&crate::props::c03::run_real_opt(&schemas[0], &files, true));
     for (i, s) in schemas.iter().enumerate().skip(1) {
         let v = verdict_of(&crate::props::c03::run_real_opt(s, &files, true));
-        if v != base {
+        let differs = if verdict_only { v.0.is_empty() != base.0.is_empty() || (v.0.is_empty() && v.1.is_empty() != base.1.is_empty()) || v.2 != base.2 } else { v != base };
+        if differs {
             let class = if base.1.is_empty() != v.1.is_empty() || base.0.is_empty() != v.0.is_empty() { "accept-vs-reject" } else { "different-diagnostics" };
             out.push(Violation { sig: format!("C17|permutation|library-verdict-differs|{class}"), detail: format!("check gives schema diagnostics {:?} / operation diagnostics {:?} for one order of the schema definitions and {:?} / {:?} for permutation #{i} — operation {:?}", base.0, base.1, v.0, v.1, clip(op, 500)), replay: replay.clone() });
             break;
@@ -356,7 +391,14 @@ fn run_perm_lib(ctx: &Ctx, rep: &mut Report) {
             (doc, false)
         };
         let op = render_exec(&doc, None, Feat::plain());
-        let shaped = if rng.chance(1, 3) { split_extensions(&schema, &mut rng) } else { schema.clone() };
+        // ... or a single-fault mutant of the schema: an invalid schema must be rejected in every order
+        let schema_fault = if !faulty && rng.chance(1, 4) { crate::inject_ts::inject(&mut rng, &schema) } else { None };
+        let schema = match &schema_fault {
+            Some(f) if !crate::validate::validate_type_system(&f.doc).is_empty() => f.doc.clone(),
+            _ => schema,
+        };
+        let verdict_only = schema_fault.is_some();
+        let shaped = if !verdict_only && rng.chance(1, 3) { split_extensions(&schema, &mut rng) } else { schema.clone() };
         let mut schemas = vec![render_ts(&shaped, None, Feat::plain())];
         // reversed, rotated and two shuffled orders (extensions keep their relative order per type: only definitions
         // of *different* names change places, which never changes the merged schema)
@@ -380,10 +422,10 @@ fn run_perm_lib(ctx: &Ctx, rep: &mut Report) {
         }
         rep.trace_case(|| json!({"property":"C17","kind":"perm-lib","schemas":schemas,"op":op}));
         rep.eval();
-        rep.count(if faulty { "library_permutation_cases|single-fault-document" } else { "library_permutation_cases|valid-document" });
+        rep.count(if verdict_only { "library_permutation_cases|single-fault-schema" } else if faulty { "library_permutation_cases|single-fault-document" } else { "library_permutation_cases|valid-document" });
         rep.add("library_permutations_checked", schemas.len() as u64 - 1);
         rep.nontrivial(&format!("permlib{}\u{1}{op}", schemas[0]));
-        rep.violations(check_perm_lib(&schemas, &op));
+        rep.violations(check_perm_lib_mode(&schemas, &op, verdict_only));
     }
 }
 
@@ -496,7 +538,7 @@ pub fn replay(case: &Value, ctx: &Ctx) -> Vec<Violation> {
             let c = LibCase { files: files_from(&case["files"]), root: case["root"].as_str().unwrap_or("app").into(), schema_paths: strs(&case["schema_paths"]), op_paths: strs(&case["op_paths"]), config_text: case["config"].as_str().unwrap_or("").into(), schema_output: case["schema_output"].as_str().map(|s| s.into()), resolvers_output: case["resolvers_output"].as_str().map(|s| s.into()), decl_ext: case["decl_ext"].as_str().unwrap_or("d.graphql.ts").into() };
             check_lib(ctx, 0, &c, &mut 0)
         }
-        Some("perm-lib") => check_perm_lib(&strs(&case["schemas"]), case["op"].as_str().unwrap_or("")),
+        Some("perm-lib") => check_perm_lib_mode(&strs(&case["schemas"]), case["op"].as_str().unwrap_or(""), case["verdict_only"].as_bool().unwrap_or(false)),
         Some("perm") => {
             let c = PermCase { original: files_from(&case["original"]), permuted: files_from(&case["permuted"]), root: case["root"].as_str().unwrap_or("app").into(), schema_output: case["schema_output"].as_str().map(|s| s.into()), outputs: files_from(&case["outputs"]) };
             check_perm(ctx, 0, &c, &mut (0, 0, 0))
